@@ -6,7 +6,7 @@
     (delivered by the real MoveGen in the correspondence; its correctness is C01). *)
 From Coq Require Import ZArith NArith List.
 From Texel Require Import Chess.Types gen.PolyglotRandoms Book.Polyglot Book.BuiltIn Book.BookSpec
-  Book.PolyglotProofs Book.SearchProofs Book.RangeProofs Book.DecodeProofs Book.BookTheorems.
+  Book.PolyglotProofs Book.SearchProofs Book.RangeProofs Book.DecodeProofs Book.CodecProofs Book.BookTheorems.
 Import ListNotations.
 Local Open Scope Z_scope.
 
@@ -61,6 +61,20 @@ Theorem C18_candidates_decode_spec : forall f key pos pr, sortedFile f -> getBoo
                     (filter (fun e => (entHash e =? key)%N) (fileEntries f)).
 Proof. exact candidates_decode_spec. Qed.
 Print Assumptions C18_candidates_decode_spec.
+
+(** Round trips: entry codec (every 64-bit hash, 16-bit move and weight) and move codec
+    (getMove reads back what getPGMove writes, for every move with squares on the board and a
+    promotion piece of the side to move, except the never-legal king-takes-own-rook pattern). *)
+Theorem C18_entry_codec_roundtrip : forall h m w, (h < two64)%N -> (m < 65536)%N -> (w < 65536)%N ->
+  deSerialize (serialize h m w) = mkEnt h m w /\ length (serialize h m w) = 16%nat.
+Proof. exact entry_codec_roundtrip. Qed.
+Print Assumptions C18_entry_codec_roundtrip.
+
+Theorem C18_pgmove_roundtrip : forall pos m,
+  roundTripDomain (whiteMove pos) (getPiece pos (mfrom m)) m = true ->
+  getMove pos (getPGMove pos m) = m.
+Proof. exact pgmove_decode_roundtrip. Qed.
+Print Assumptions C18_pgmove_roundtrip.
 
 (** Every stored move of positive weight (all moves under the key being legal) is returned for
     some random number below the sum, and Random::nextInt can deliver that number when the sum is
